@@ -1450,6 +1450,12 @@ def m_find_map(E, st, f, a, k, e):
     _two_way(E, st, a[0], lambda s: k(s, NONE), lambda s, x: E.call_closure(s, a[1], [x], lambda s2, r: E.match_option(s2, r, lambda s3, y: k(s3, SOME(y)), lambda s3: (_exhausted(E, s3, a[0]), k(s3, NONE))[1])))
 
 
+@model(ITER + 'fold')
+def m_fold(E, st, f, a, k, e):
+    # fold(iter, init, |acc, x| ..): no element -> init; one symbolic element -> closure(init, x)
+    _two_way(E, st, a[0], lambda s: k(s, a[1]), lambda s, x: E.call_closure(s, a[2], [a[1], x], k))
+
+
 @model(ITER + 'try_for_each')
 def m_try_for_each(E, st, f, a, k, e):
     def body(s, x):
@@ -1510,7 +1516,7 @@ def _consumer(E, st, f, a, k, e):
 
 
 for _p in ('core::iter::Extend::extend', ITER + 'collect', 'core::iter::FromIterator::from_iter', ITER + 'count', ITER + 'sum', ITER + 'last', ITER + 'max', ITER + 'min',
-           ITER + 'fold', ITER + 'unzip', ITER + 'for_each_unused'):
+           ITER + 'unzip', ITER + 'for_each_unused'):
     MODELS[_p] = _consumer
 
 
